@@ -184,11 +184,12 @@ func (gowFamily) Exec(c *hc.Case) {
 	var runFn func(context.Context) error
 	var fbFn func(context.Context, error) error
 	var fbGot error
+	var gotCtx context.Context // what the wrapped function was handed
 	if p.Via == "run" {
-		runFn = func(context.Context) error { return body() }
+		runFn = func(rctx context.Context) error { gotCtx = rctx; return body() }
 	} else {
 		runFn = func(context.Context) error { return gowRunFails }
-		fbFn = func(_ context.Context, err error) error { fbGot = err; return body() }
+		fbFn = func(fctx context.Context, err error) error { fbGot, gotCtx = err, fctx; return body() }
 	}
 	if p.Order == "both_ready" {
 		cancel()
@@ -293,6 +294,12 @@ func (gowFamily) Exec(c *hc.Case) {
 	if p.Order == "ctx_first" && p.CtxEnd == "timeout" && got.err != context.DeadlineExceeded {
 		c.Viol = append(c.Viol, hc.Violation{Clause: "C18: when the execution timeout ends first the run step ends with that context's error", Detail: fmt.Sprintf("got %v", got.err), AtOp: 0})
 	}
+	if p.Via == "fallback" && gotCtx != ctx {
+		c.Viol = append(c.Viol, hc.Violation{Clause: "C07: the fallback always receives the caller's original context, never the timed-out one", Detail: fmt.Sprintf("through Go (order %s, the caller's context ended by %s): the fallback was handed a different context value", p.Order, p.CtxEnd), AtOp: 0})
+	}
+	if p.Via == "run" && p.CtxEnd != "timeout" && gotCtx != ctx {
+		c.Viol = append(c.Viol, hc.Violation{Clause: "C07: with Timeout <= 0 the run function receives the caller's context itself", Detail: fmt.Sprintf("through Go on a %s circuit without an execution timeout (order %s): the run function was handed a different context value", p.Circuit, p.Order), AtOp: 0})
+	}
 	if p.Via == "fallback" && fbGot != gowRunFails {
 		c.Viol = append(c.Viol, hc.Violation{Clause: "C18: the normal fallback rules apply", Detail: fmt.Sprintf("fallback received %v", fbGot), AtOp: 0})
 	}
@@ -304,6 +311,9 @@ func (gowFamily) Exec(c *hc.Case) {
 	}
 	if p.Circuit == "normal" && p.K%4 == 2 {
 		reconfigProbe(c)
+	}
+	if p.Circuit == "normal" && p.K%4 == 3 {
+		fallbackCtxProbe(c)
 	}
 	c.Tags = []string{"order:" + p.Order, "outcome:" + p.Outcome, "via:" + p.Via, "circuit:" + p.Circuit, fmt.Sprintf("lost:%v", p.Lost), "ctx_end:" + p.CtxEnd}
 	if ctxErr {
@@ -429,5 +439,64 @@ func reconfigProbe(c *hc.Case) {
 		c.Viol = append(c.Viol, hc.Violation{Clause: "C18: Go returns as soon as the caller's context or the execution timeout ends, even if the run function never returns", Detail: "a 40 ms execution timeout, switched on while the call was being admitted, was armed for the call (its context has the deadline), and Go was still blocked 3 s later", AtOp: 0})
 		close(release)
 		<-done
+	}
+}
+
+// fallbackCtxProbe: the fallback STARTS when the caller's context is already done (the run function ended it and
+// failed), or when the execution timeout has ended the run step: what it is handed is the caller's context, the very
+// value, through Go as through Execute.
+func fallbackCtxProbe(c *hc.Case) {
+	type key struct{}
+	for _, entry := range []string{"go", "execute"} {
+		for _, how := range []string{"caller-cancelled", "run-timed-out"} {
+			var cfg circuit.Config
+			cfg.Execution.Timeout = -1
+			if how == "run-timed-out" {
+				cfg.Execution.Timeout = 10 * time.Millisecond
+			}
+			cir := circuit.NewCircuitFromConfig("gow-fbctx", cfg)
+			base := context.WithValue(context.Background(), key{}, entry)
+			ctx, cancel := context.WithCancel(base)
+			var got context.Context
+			called := make(chan struct{})
+			runFn := func(rctx context.Context) error {
+				if how == "caller-cancelled" {
+					cancel()
+				} else {
+					<-rctx.Done()
+				}
+				return gowRunFails
+			}
+			fbFn := func(fctx context.Context, _ error) error {
+				got = fctx
+				close(called)
+				return nil
+			}
+			done := make(chan struct{})
+			go func() {
+				defer close(done)
+				defer func() { _ = recover() }()
+				if entry == "go" {
+					_ = cir.Go(ctx, runFn, fbFn)
+				} else {
+					_ = cir.Execute(ctx, runFn, fbFn)
+				}
+			}()
+			select {
+			case <-called:
+				if got != ctx {
+					same := got != nil && got.Value(key{}) == entry
+					c.Viol = append(c.Viol, hc.Violation{Clause: "C07: the fallback always receives the caller's original context, never the timed-out one",
+						Detail: fmt.Sprintf("entry %s, fallback started after %s: it was handed a different context value (carrying the caller's values: %v, Err() = %v while the caller's Err() = %v)", entry, how, same, got.Err(), ctx.Err()), AtOp: 0})
+				}
+			case <-time.After(3 * time.Second):
+				// the fallback never started: not this probe's business
+			}
+			select {
+			case <-done:
+			case <-time.After(3 * time.Second):
+			}
+			cancel()
+		}
 	}
 }
